@@ -39,6 +39,10 @@ func Verif_C26_selectBatch() {
 	accKnown := verifBool("accKnown")
 	accNonce := verifU64("accNonce")
 	if accKnown {
+		// the account nonce may be notified more than once (it also goes down, after a rollback): the last one counts
+		if verifBool("notifiedTwice") {
+			list.notifyAccountNonce(verifU64("earlierAccNonce"))
+		}
 		list.notifyAccountNonce(accNonce)
 	}
 	dest := make([]*WrappedTransaction, 4)
